@@ -226,7 +226,7 @@ Exec(Q, T, S, m) ==
          THEN LET S1 == TouchU(Q, T, S)
                   got == ULive(Q, S1, m.u)
                   want == ULive({}, S1, m.u)
-              IN Res(TRUE, [S1 EXCEPT !.rus = @ \cup {<<m.u, got>>}], 0, 0, IdsSeq(got),
+              IN Res(TRUE, [S1 EXCEPT !.rus = @ \cup {<<m.u, got \ S1.wrote>>}], 0, 0, IdsSeq(got),     \* own entries are not validated
                      IF got # want THEN Blame(Q, UQuirks, LAMBDA q : ULive(q, TouchU(q, T, S), m.u)) ELSE {})
          ELSE Res(TRUE, [S EXCEPT !.rall = TRUE], 0, 0, IdsSeq({i \in LiveIds(S.view) : S.view[i].u = m.u}), {})
     [] m.k = "crIdx" ->
@@ -248,13 +248,14 @@ Replay(S) == ReplayFrom(BeginSession({}, S.snap, 0), S.log, 1)
 \* a transaction that wrote nothing is never validated
 Conflict(Q, T, S) ==
   /\ (S.wrote # {} \/ S.ddl)
+  /\ (S.stale # {} \/ S.catstale)        \* nothing committed since the snapshot: nothing to validate against
   /\ \/ S.catstale
      \/ S.rk \cap S.stale # {}
      \/ S.rall /\ S.stale # {}
      \/ \E i \in S.stale : i >= S.rmax
      \/ \E k \in S.ak : Live(T.rows[k])
      \/ \E x \in S.au : T.uidx /\ ~UFreeT(Q, T, x)
-     \/ \E f \in S.rus : f[2] \cap S.stale # {} \/ {i \in Ids : Live(T.rows[i]) /\ T.rows[i].u = f[1]} # f[2]
+     \/ \E f \in S.rus : f[2] \cap S.stale # {} \/ {i \in Ids \ S.wrote : Live(T.rows[i]) /\ T.rows[i].u = f[1]} # f[2] \ S.wrote
      \/ S.rempty /\ (LET E == EverIds(T.rows) IN
                      IF "ddl_first_pk_only" \in Q THEN E # {} /\ (Min(E) \in S.stale \/ Live(T.rows[Min(E)]) # Live(S.snap.rows[Min(E)]))
                      ELSE S.stale # {})
